@@ -225,6 +225,7 @@ fn settings_of(seed: u64, equil: bool, tl: f64) -> DefaultSettings<f64> {
     }
     let mut r = Rng::new(seed);
     s.max_iter = 50 + r.below(200) as u32;
+    s.max_threads = 1 + r.below(4) as u32;
     s.max_step_fraction = r.uniform(0.9, 0.999);
     s.tol_gap_abs = r.uniform(0.5e-8, 2e-8);
     s.tol_gap_rel = r.uniform(0.5e-8, 2e-8);
@@ -255,6 +256,92 @@ fn settings_of(seed: u64, equil: bool, tl: f64) -> DefaultSettings<f64> {
 
 fn build(p: &Prob, s: DefaultSettings<f64>) -> DefaultSolver<f64> {
     DefaultSolver::new(&p.P, &p.q, &p.A, &p.b, &p.cones, s)
+}
+
+/// `(field, value text)` pairs of a `Debug`-printed `DefaultSettings` — the field list is
+/// taken from `derive(Debug)`, which no serde attribute can change, so that fields which are
+/// skipped by the (de)serialiser are still known here
+fn debug_fields(s: &DefaultSettings<f64>) -> Vec<(String, String)> {
+    let d = format!("{:?}", s);
+    let inner = d.trim_start_matches("DefaultSettings").trim().trim_start_matches('{').trim_end_matches('}').trim();
+    let mut out = vec![];
+    let mut depth = 0i32;
+    let mut in_str = false;
+    let mut cur = String::new();
+    for ch in inner.chars() {
+        match ch {
+            '"' => { in_str = !in_str; cur.push(ch); }
+            '{' | '[' | '(' if !in_str => { depth += 1; cur.push(ch); }
+            '}' | ']' | ')' if !in_str => { depth -= 1; cur.push(ch); }
+            ',' if !in_str && depth == 0 => { out.push(cur.clone()); cur.clear(); }
+            _ => cur.push(ch),
+        }
+    }
+    if !cur.trim().is_empty() {
+        out.push(cur);
+    }
+    out.iter()
+        .filter_map(|f| f.trim().split_once(": ").map(|(k, v)| (k.trim().to_string(), v.trim().to_string())))
+        .collect()
+}
+
+fn first_settings_difference(a: &DefaultSettings<f64>, b: &DefaultSettings<f64>) -> Option<String> {
+    let (fa, fb) = (debug_fields(a), debug_fields(b));
+    if fa.len() != fb.len() {
+        return Some("different number of fields".into());
+    }
+    for ((ka, va), (kb, vb)) in fa.iter().zip(fb.iter()) {
+        if ka != kb || va != vb {
+            return Some(format!("{}: {} vs {}", ka, va, vb));
+        }
+    }
+    None
+}
+
+/// valid alternatives of the string-valued options
+fn string_choices(field: &str) -> &'static [&'static str] {
+    match field {
+        "direct_solve_method" => &["auto", "qdldl", "faer"],
+        "chordal_decomposition_merge_method" => &["clique_graph", "parent_child", "none"],
+        _ => &[],
+    }
+}
+
+/// Settings in which (almost) every field differs from its default: the field list and the
+/// field kinds are read off the `Debug` form of the default settings at run time, each field
+/// is moved away from its default with probability 0.85 (booleans flipped, integers
+/// increased, floats rescaled, strings replaced by another valid choice) and the result is
+/// built through the deserialiser.  `direct_kkt_solver` stays `true` (the constructor
+/// requires it).  Returns the settings and the number of fields that differ from the default.
+fn nondefault_settings(seed: u64, quiet: bool) -> (DefaultSettings<f64>, usize) {
+    let def = DefaultSettings::<f64>::default();
+    let mut r = Rng::new(seed ^ 0xabcdef);
+    let mut m = serde_json::Map::new();
+    for (k, v) in debug_fields(&def) {
+        let change = r.bool(0.85);
+        let val: Value = if v == "true" || v == "false" {
+            let b = v == "true";
+            if k == "direct_kkt_solver" { json!(true) }
+            else if k == "verbose" { json!(!quiet) }
+            else { json!(if change { !b } else { b }) }
+        } else if v.starts_with('"') {
+            let cur = v.trim_matches('"').to_string();
+            let alts: Vec<&&str> = string_choices(&k).iter().filter(|c| **c != cur).collect();
+            if change && !alts.is_empty() { json!(**r.choose(&alts)) } else { json!(cur) }
+        } else if let Ok(i) = v.parse::<u64>() {
+            json!(if change { i + 1 + r.below(5) as u64 } else { i })
+        } else if let Ok(f) = v.parse::<f64>() {
+            if !f.is_finite() { json!(if change { 1234.5 + r.unit() } else { f64::MAX }) }
+            else if f == 0.0 { json!(if change { 0.5 } else { 0.0 }) }
+            else { json!(if change { f * r.uniform(1.1, 1.9) } else { f }) }
+        } else {
+            continue; // unknown kind: left to the default (shows up in the count below)
+        };
+        m.insert(k, val);
+    }
+    let s: DefaultSettings<f64> = serde_json::from_value(Value::Object(m)).expect("settings from field map");
+    let n = debug_fields(&s).iter().zip(debug_fields(&def).iter()).filter(|(a, b)| a.1 != b.1).count();
+    (s, n)
 }
 
 fn settings_repr(s: &DefaultSettings<f64>) -> String {
@@ -413,7 +500,15 @@ fn roundtrip(r: &Req) -> Result<String, String> {
     let tl = r.f("tl");
     let seed = r.u("seed") as u64;
     let do_solve = r.b("solve");
-    let settings = settings_of(seed, equil, tl);
+    let full = r.has("full") && r.b("full");
+    let settings = if full {
+        let (mut st, _) = nondefault_settings(seed, true);
+        st.equilibrate_enable = equil;
+        st
+    } else {
+        settings_of(seed, equil, tl)
+    };
+    let tl = settings.time_limit;
     let reduced_allowed = settings.presolve_enable || settings.chordal_decomposition_enable;
     let mut s1 = build(&p, settings.clone());
     let text = save_text(&s1)?;
@@ -456,14 +551,20 @@ fn roundtrip(r: &Req) -> Result<String, String> {
     if v["settings"] != want_settings {
         return Err("saved settings differ from the solver's settings".into());
     }
+    // every field of DefaultSettings (list from derive(Debug), not from serde) is in the file
+    for (k, _) in debug_fields(&settings) {
+        if v["settings"].get(&k).is_none() {
+            return Err(format!("the saved settings object has no key for the field {}", k));
+        }
+    }
     // ---- load
     let mut s2 = load_text(text.as_bytes(), None).map_err(|e| format!("load_from_file failed on a saved file: {}", e))?;
     let mut want = settings.clone();
     if want.time_limit == f64::MAX {
         want.time_limit = f64::INFINITY; // documented representation
     }
-    if settings_repr(&s2.settings) != settings_repr(&want) {
-        return Err(format!("loaded settings differ: {} vs {}", settings_repr(&s2.settings), settings_repr(&want)));
+    if let Some(d) = first_settings_difference(&s2.settings, &want) {
+        return Err(format!("loaded settings differ from the saving solver's in field {}", d));
     }
     if s2.data.cones != s1.data.cones {
         return Err("loaded cones differ from the saving solver's cones".into());
@@ -491,7 +592,7 @@ fn roundtrip(r: &Req) -> Result<String, String> {
     let mut other = settings_of(seed.wrapping_add(77) | 1, !equil, 12.5);
     other.max_iter = 1;
     let s3 = load_text(text.as_bytes(), Some(other.clone())).map_err(|e| format!("load with settings failed: {}", e))?;
-    if settings_repr(&s3.settings) != settings_repr(&other) {
+    if first_settings_difference(&s3.settings, &other).is_some() {
         return Err("load_from_file(file, Some(settings)) did not use the supplied settings".into());
     }
     // ---- solve both
@@ -915,6 +1016,125 @@ fn all_cones_problem(rng: &mut Rng) -> Prob {
     }
 }
 
+/// special-structure problems on which part of the equilibration is trivial
+/// (unit row / column norms, P = 0, q = 0, all ones, ...)
+fn gen_structured(rng: &mut Rng, kind: usize) -> (Prob, &'static str, bool) {
+    let n = 1 + rng.below(4);
+    let eye = |n: usize, v: f64| CscMatrix { m: n, n, colptr: (0..=n).collect(), rowval: (0..n).collect(), nzval: vec![v; n] };
+    let box_a = |n: usize| {
+        // A = [I; -I]
+        let mut colptr = vec![0];
+        let mut rowval = vec![];
+        let mut nzval = vec![];
+        for j in 0..n {
+            rowval.extend([j, n + j]);
+            nzval.extend([1.0, -1.0]);
+            colptr.push(rowval.len());
+        }
+        CscMatrix { m: 2 * n, n, colptr, rowval, nzval }
+    };
+    // symmetric P (upper triangle), entries of magnitude <= pmax, diagonally dominant
+    let mut p_small = |rng: &mut Rng, n: usize, pmax: f64| {
+        let mut colptr = vec![0];
+        let mut rowval = vec![];
+        let mut nzval = vec![];
+        for c in 0..n {
+            for r in 0..=c {
+                if r == c {
+                    rowval.push(r);
+                    nzval.push(pmax * *rng.choose(&[1.0, 0.5, 0.75]));
+                } else if rng.bool(0.4) {
+                    rowval.push(r);
+                    nzval.push(pmax * *rng.choose(&[0.125, -0.125, 0.0625]));
+                }
+            }
+            colptr.push(rowval.len());
+        }
+        CscMatrix { m: n, n, colptr, rowval, nzval }
+    };
+    let zero_p = |n: usize| CscMatrix { m: n, n, colptr: vec![0; n + 1], rowval: vec![], nzval: vec![] };
+    match kind % 8 {
+        0 => {
+            // box QP: all KKT row / column inf-norms are exactly 1, |q|_inf > 1  =>  d = e = 1, c != 1
+            let q: Vec<f64> = (0..n).map(|_| rng.uniform(1.5, 6.0) * if rng.bool(0.5) { 1.0 } else { -1.0 }).collect();
+            (Prob { P: p_small(rng, n, 1.0), q, A: box_a(n), b: vec![1.0; 2 * n], cones: vec![Cone::NonnegativeConeT(2 * n)] }, "box-qp-unit-norms", true)
+        }
+        1 => {
+            // the same with small q: c is driven by the mean column norm of P
+            let q: Vec<f64> = (0..n).map(|_| rng.uniform(-0.25, 0.25)).collect();
+            (Prob { P: p_small(rng, n, 0.5), q, A: box_a(n), b: vec![2.0; 2 * n], cones: vec![Cone::NonnegativeConeT(2 * n)] }, "box-qp-small-q", true)
+        }
+        2 => {
+            // LP on a box: P = 0, q != 0
+            let q: Vec<f64> = (0..n).map(|_| rng.uniform(-3.0, 3.0)).collect();
+            (Prob { P: zero_p(n), q, A: box_a(n), b: vec![1.0; 2 * n], cones: vec![Cone::NonnegativeConeT(2 * n)] }, "box-lp", true)
+        }
+        3 => {
+            // q = 0, P != 0
+            (Prob { P: p_small(rng, n, 4.0), q: vec![0.0; n], A: box_a(n), b: vec![1.0; 2 * n], cones: vec![Cone::NonnegativeConeT(2 * n)] }, "q-zero", true)
+        }
+        4 => {
+            // everything equal to one
+            let mut colptr = vec![0];
+            let mut rowval = vec![];
+            for c in 0..n {
+                rowval.extend(0..=c);
+                colptr.push(rowval.len());
+            }
+            let P = CscMatrix { m: n, n, colptr, nzval: vec![1.0; rowval.len()], rowval };
+            let m = 1 + rng.below(3);
+            let mut colptr = vec![0];
+            let mut rowval = vec![];
+            for _ in 0..n {
+                rowval.extend(0..m);
+                colptr.push(rowval.len());
+            }
+            let A = CscMatrix { m, n, colptr, nzval: vec![1.0; rowval.len()], rowval };
+            (Prob { P, q: vec![1.0; n], A, b: vec![1.0; m], cones: vec![Cone::NonnegativeConeT(m)] }, "all-ones", false)
+        }
+        5 => {
+            // A = identity (x <= b), P entries at most 1, |q| > 1
+            let q: Vec<f64> = (0..n).map(|_| -rng.uniform(2.0, 9.0)).collect();
+            (Prob { P: p_small(rng, n, 1.0), q, A: eye(n, 1.0), b: vec![1.0; n], cones: vec![Cone::NonnegativeConeT(n)] }, "identity-A", true)
+        }
+        6 => {
+            // signed permutation rows (unit norms) with an equality block, P = identity
+            let perm = rng.perm(n);
+            let mut cols: Vec<Vec<(usize, f64)>> = vec![vec![]; n];
+            for (i, &j) in perm.iter().enumerate() {
+                cols[j].push((i, if rng.bool(0.5) { 1.0 } else { -1.0 }));
+            }
+            let mut colptr = vec![0];
+            let mut rowval = vec![];
+            let mut nzval = vec![];
+            for c in cols {
+                for (i, v) in c {
+                    rowval.push(i);
+                    nzval.push(v);
+                }
+                colptr.push(rowval.len());
+            }
+            let A = CscMatrix { m: n, n, colptr, rowval, nzval };
+            let q: Vec<f64> = (0..n).map(|_| rng.uniform(-5.0, 5.0)).collect();
+            (Prob { P: eye(n, 1.0), q, A, b: vec![1.0; n], cones: vec![Cone::NonnegativeConeT(n)] }, "signed-permutation-A", true)
+        }
+        _ => {
+            // unit-norm columns but rows of different norms (d = 1, e != 1), P = 0.5 I
+            let mut colptr = vec![0];
+            let mut rowval = vec![];
+            let mut nzval = vec![];
+            for j in 0..n {
+                rowval.extend([0, 1 + j]);
+                nzval.extend([0.25, 1.0]);
+                colptr.push(rowval.len());
+            }
+            let A = CscMatrix { m: n + 1, n, colptr, rowval, nzval };
+            let q: Vec<f64> = (0..n).map(|_| rng.uniform(-4.0, 4.0)).collect();
+            (Prob { P: eye(n, 0.5), q, A, b: vec![2.0; n + 1], cones: vec![Cone::NonnegativeConeT(n + 1)] }, "unit-columns", true)
+        }
+    }
+}
+
 fn extreme(rng: &mut Rng) -> f64 {
     *rng.choose(&[0.0, -0.0, 1.0, -1.0, f64::MAX, -f64::MAX, f64::MIN_POSITIVE, 5e-324, 1e300, -1e-300, 0.1, 1.0 / 3.0, 123456789.123456789, 1e20, 9.999999999999999e19, 2.2250738585072011e-308])
 }
@@ -963,6 +1183,21 @@ fn generate(s: &mut Session) {
         s.count(if equil { "save:equilibrated" } else { "save:not-equilibrated" });
         submit_save_from_solver(s, &p, equil);
     }
+    // ---- special-structure problems (part of the scaling trivial): save + round trip
+    for k in 0..s.budget(64, 1600) {
+        let mut rng = s.rng.fork();
+        let (p, name, solvable) = gen_structured(&mut rng, k);
+        let equil = k % 16 < 12 || rng.bool(0.5);
+        {
+            let probe = build(&p, settings_of(0, equil, f64::INFINITY));
+            let eq = &probe.data.equilibration;
+            let one = |v: &[f64]| v.iter().all(|&x| x == 1.0);
+            s.count(&format!("structured:{}:d{}e{}c{}", name, if one(&eq.d) { "=1" } else { "!=1" }, if one(&eq.e) { "=1" } else { "!=1" }, if eq.c == 1.0 { "=1" } else { "!=1" }));
+        }
+        submit_save_from_solver(s, &p, equil);
+        let l = prob_line(Line::new("json.roundtrip"), &p).b("equil", equil).f("tl", f64::INFINITY).u("seed", 0).b("solve", solvable);
+        s.submit(l.done());
+    }
     // ---- json.save on arbitrary internal states (extreme values, identity scaling included)
     for _ in 0..s.budget(150, 6000) {
         let mut rng = s.rng.fork();
@@ -970,16 +1205,18 @@ fn generate(s: &mut Session) {
         let tP = triu_of(&p.P);
         let (n, m) = (p.q.len(), p.b.len());
         let ext = rng.bool(0.4);
-        let ident = rng.bool(0.3);
+        let ident = rng.bool(0.2);
+        // every combination of "this part of the scaling is trivial"
+        let (d1, e1, c1) = (ident || rng.bool(0.35), ident || rng.bool(0.35), ident || rng.bool(0.35));
         let mut val = |rng: &mut Rng| if ext { extreme(rng) } else { rng.logmag(-6.0, 6.0) };
         let P = CscMatrix { nzval: (0..tP.nzval.len()).map(|_| val(&mut rng)).collect(), ..tP.clone() };
         let A = CscMatrix { nzval: (0..p.A.nzval.len()).map(|_| val(&mut rng)).collect(), ..p.A.clone() };
         let q: Vec<f64> = (0..n).map(|_| val(&mut rng)).collect();
         let b: Vec<f64> = (0..m).map(|_| val(&mut rng)).collect();
-        let dinv: Vec<f64> = (0..n).map(|_| if ident { 1.0 } else { rng.uniform(1e-4, 1e4) }).collect();
-        let einv: Vec<f64> = (0..m).map(|_| if ident { 1.0 } else { rng.uniform(1e-4, 1e4) }).collect();
-        let c = if ident { 1.0 } else { rng.uniform(1e-4, 1e4) };
-        s.count(if ident { "save:synthetic-identity" } else { "save:synthetic" });
+        let dinv: Vec<f64> = (0..n).map(|_| if d1 { 1.0 } else { rng.uniform(1e-4, 1e4) }).collect();
+        let einv: Vec<f64> = (0..m).map(|_| if e1 { 1.0 } else { rng.uniform(1e-4, 1e4) }).collect();
+        let c = if c1 { 1.0 } else { rng.uniform(1e-4, 1e4) };
+        s.count(&format!("save:synthetic:d{}e{}c{}", if d1 { "=1" } else { "!=1" }, if e1 { "=1" } else { "!=1" }, if c1 { "=1" } else { "!=1" }));
         s.submit(Line::new("json.save").csc("P", &P).fs("q", &q).csc("A", &A).fs("b", &b).fs("dinv", &dinv).fs("einv", &einv).f("c", c).done());
     }
     // ---- json.roundtrip
@@ -1010,6 +1247,20 @@ fn generate(s: &mut Session) {
         let l = prob_line(Line::new("json.roundtrip"), &p).b("equil", equil).f("tl", tl).u("seed", seed as usize).b("solve", true);
         let out = s.submit(l.done());
         s.count(&format!("roundtrip:{}", out.split('_').next().unwrap_or("")));
+    }
+    // every settings field away from its default (no solve: the values are not meant to be good)
+    {
+        let (_, ndiff) = nondefault_settings(1, true);
+        let total = debug_fields(&DefaultSettings::<f64>::default()).len();
+        s.note(format!("settings round trip: {} fields known from derive(Debug); e.g. seed 1 moves {} of them off their defaults", total, ndiff));
+    }
+    for _ in 0..s.budget(60, 1500) {
+        let mut rng = s.rng.fork();
+        let p = gen_problem(&mut rng, true, 1.0);
+        let seed = 1 + rng.below(1_000_000);
+        let l = prob_line(Line::new("json.roundtrip"), &p).b("equil", rng.bool(0.5)).f("tl", f64::INFINITY).u("seed", seed).b("solve", false).b("full", true);
+        s.submit(l.done());
+        s.count("roundtrip:every-settings-field-non-default");
     }
     // extreme finite values, no solve (equilibration off: exact; on: moderate extremes)
     for _ in 0..s.budget(60, 2000) {
